@@ -317,7 +317,8 @@ def compare_noop(ref: e3.BuildResult, new: e3.BuildResult, flavour: str, variant
 # ---------------------------------------------------------------------------------------------
 
 
-def plan_source_edits(rng: random.Random, proj: e3.Project, graph: dict, env_edits: bool = False) -> tuple[list, list]:
+def plan_source_edits(rng: random.Random, proj: e3.Project, graph: dict, env_edits: bool = False,
+                      replan: bool = True) -> tuple[list, list]:
     """Choose edits of source files (and, with env_edits, of tracked variables).  Returns (e3 edits, edited
     paths; an edited variable NAME appears as "env:NAME")."""
     sources = sorted(p for p in proj.sources if not p.endswith("/"))
@@ -374,6 +375,25 @@ def plan_source_edits(rng: random.Random, proj: e3.Project, graph: dict, env_edi
         p = rng.choice(scripts)
         edits.append({"op": "rawappend", "path": p})
         edited.append(p)
+    # re-planning that changes what a plan declares: a plan script (a source file) gets one more step, which
+    # consumes an output that exists already - half of the time the output of an OPTIONAL step when there is one
+    # (an idle one becomes needed: the circumstance of the known finding D38, and only that one goes under its
+    # signature)
+    if replan and rng.random() < 0.15:
+        plans = sorted(l for l, i in graph.items() if i["need"] == "PLAN" and not i["detached"]
+                       and l.startswith("./") and l[2:] in proj.program.get("scripts", {}) and l[2:] not in edited)
+        outs_opt = sorted(o for i in graph.values() if not i["detached"] and i["need"] == "OPTIONAL"
+                          for o in i["outputs"] - i["dyn_outputs"])
+        outs_all = sorted(o for i in graph.values() if not i["detached"] for o in i["outputs"] - i["dyn_outputs"])
+        pool = outs_opt if outs_opt and rng.random() < 0.5 else outs_all
+        if plans and pool:
+            script = rng.choice(plans)[2:]
+            src = rng.choice(pool)
+            n = rng.randint(100, 999)
+            actions = list(proj.program["scripts"][script]) + [
+                {"op": "step", "label": f"tc{n}", "inp": [src], "out": [f"oc{n}.txt"]}]
+            edits.append({"op": "script", "path": script, "actions": actions})
+            edited.append(script)
     return edits, edited
 
 
@@ -1043,6 +1063,8 @@ def _cone_check(item, rng, proj, ref, rebuild, flavour, report, count, fail, roo
         count("cone:project_with:" + feat)
     paths, names = split_edited(edited)
     count(f"cone:edit:paths={min(len(paths), 3)},variables={len(names)}")
+    if any(e["op"] == "script" for e in edits):
+        count("cone:edit:plan_script_declares_a_new_consumer")
     both = {l: i for g in (pre, post) for l, i in g.items()}
     for what, labels in (("executed", set(executed)), ("skipped", set(skipped))):
         for l in labels:
